@@ -22,7 +22,7 @@ func init() {
 				"board.FromFEN (only in the position-command harness) -> arbitrary (fresh symbolic board, nil) or (nil, error); strings.Join -> opaque string",
 			},
 			Outside: []string{
-				"FEN text round trip (printer through strings.Builder/strconv into a symbolic-length buffer and back): not encoded yet",
+				"FEN text round trip: NOT claimed. The printer is encodable through the engine's text model (strings.Builder, strconv.Itoa, fmt %c/%d; harness VpH_C11_roundtrip, tier diagnostic) but print+parse over a buffer with symbolic offsets does not close: unknown after 60 s even for the reachability witness with a fully concrete placement (152k terms)",
 				"strings longer than L bytes; the tuner's epd.Parse wrapper",
 			},
 		}
@@ -36,6 +36,10 @@ func init() {
 			Opt: run.Options{LoopBound: int(L) + 2, UnwindMode: "assume", PanicMode: "ignore", TimeoutMs: 600000}})
 		for stm := int64(0); stm < 2; stm++ {
 			s.Instances = append(s.Instances, run.Instance{Pkg: "board", Func: "VpH_C11_counts", Params: map[string]int64{"stm": stm}})
+		}
+		if tier == "diagnostic" {
+			s.Instances = append(s.Instances, run.Instance{Pkg: "board", Func: "VpH_C11_roundtrip", Params: map[string]int64{"stm": 0, "wk": 4, "bk": 60, "mask": 0},
+				Opt: run.Options{LoopBound: 70, UnwindMode: "assume", PanicMode: "ignore", TimeoutMs: 600000, Setup: func(x *vexec.Exec, w *run.World) { x.InstallTextModel() }}})
 		}
 		stub := func(x *vexec.Exec, w *run.World) {
 			x.Stub("strings.Join", func(x *vexec.Exec, a []vexec.Val, g *sym.Term) vexec.Val { return &vexec.StringV{Const: "<joined>"} })
